@@ -1182,22 +1182,36 @@ def np_round(I, st, args, kw, node):
     return _UROUND(to_real(x), to_z3(p))
 
 
+_ARGSORT_CACHE: dict = {}     # id(array value) -> (array value kept alive, p, q, facts)
+
+
 def np_argsort(I, st, args, kw, node):
-    used("np.argsort: a permutation p with x[p[i]] <= x[p[i+1]]")
+    used("np.argsort: a permutation p with x[p[i]] <= x[p[i+1]] - a FUNCTION of the array value (the same value sorted "
+         "twice gives the same permutation)")
+    if kw or len(args) != 1:
+        raise Unsupported(f"np.argsort with options {sorted(kw)}")
     a = I.arr_of(args[0], st)
     if a.ndim != 1:
         raise Unsupported("argsort n-d")
     n = to_z3(a.shape[0])
-    p = z3.Function(fresh_name("perm"), z3.IntSort(), z3.IntSort())
-    q = z3.Function(fresh_name("perminv"), z3.IntSort(), z3.IntSort())
-    i, j = z3.Int(fresh_name("i")), z3.Int(fresh_name("j"))
-    _ext(st, z3.ForAll([i], z3.Implies(z3.And(i >= 0, i < n), z3.And(p(i) >= 0, p(i) < n, q(p(i)) == i))), [p, q])
-    _ext(st, z3.ForAll([i], z3.Implies(z3.And(i >= 0, i < n), z3.And(q(i) >= 0, q(i) < n, p(q(i)) == i))), [p, q])
-    x, y = num_pair(to_z3(a.elem(p(i))), to_z3(a.elem(p(j))))
-    _ext(st, z3.ForAll([i, j], z3.Implies(z3.And(i >= 0, i <= j, j < n), x <= y)), [p, q])
-    # surjectivity in existential form (helps instantiation): every position is hit
-    _ext(st, z3.ForAll([j], z3.Implies(z3.And(j >= 0, j < n), z3.Exists([i], z3.And(i >= 0, i < n, p(i) == j))),
-                      patterns=[HINT(j)]), [p, q])
+    ent = _ARGSORT_CACHE.get(id(a))
+    if ent is None or ent[0] is not a:
+        p = z3.Function(fresh_name("perm"), z3.IntSort(), z3.IntSort())
+        q = z3.Function(fresh_name("perminv"), z3.IntSort(), z3.IntSort())
+        i, j = z3.Int(fresh_name("i")), z3.Int(fresh_name("j"))
+        x, y = num_pair(to_z3(a.elem(p(i))), to_z3(a.elem(p(j))))
+        facts = [z3.ForAll([i], z3.Implies(z3.And(i >= 0, i < n), z3.And(p(i) >= 0, p(i) < n, q(p(i)) == i))),
+                 z3.ForAll([i], z3.Implies(z3.And(i >= 0, i < n), z3.And(q(i) >= 0, q(i) < n, p(q(i)) == i))),
+                 z3.ForAll([i, j], z3.Implies(z3.And(i >= 0, i <= j, j < n), x <= y)),
+                 # surjectivity in existential form (helps instantiation): every position is hit
+                 z3.ForAll([j], z3.Implies(z3.And(j >= 0, j < n), z3.Exists([i], z3.And(i >= 0, i < n, p(i) == j))),
+                           patterns=[HINT(j)])]
+        ent = _ARGSORT_CACHE[id(a)] = (a, p, q, facts)
+    _a, p, q, facts = ent
+    have = {g.get_id() for g in st.facts if is_z3(g)}
+    for f in facts:
+        if f.get_id() not in have:
+            _ext(st, f, [p, q])
     return st.alloc(Arr((a.shape[0],), lambda t: p(to_z3(t)), kind="ndarray", etype="int"), "arr")
 
 
@@ -1453,8 +1467,22 @@ def rng_integers(I, st, rng: Obj, args, kw, node):
         lo, hi = 0, args[0]
     else:
         lo, hi = args[0], args[1]
-    if kw.get("size") is not None or len(args) > 2:
-        raise Unsupported("Generator.integers(size=...)")
+    size = kw.get("size") if kw.get("size") is not None else (args[2] if len(args) > 2 else None)
+    if size is not None:
+        if isinstance(size, VTuple) and len(size.items) == 1:
+            size = size.items[0]
+        if not is_num(size) or (set(kw) - {"size"}):
+            raise Unsupported("Generator.integers(size=...) with a non-integer size / further options")
+        used("Generator.integers(lo, hi, size=n): n values, each lo <= value < hi; state advances")
+        st.heap[rng.oid]["state"] = _RNG_NEXT(s, z3.IntVal(2))
+        I.safety(st, zor(to_z3(size) <= 0, to_z3(lo) < to_z3(hi)), "integers-range-nonempty", node)
+        I.safety(st, to_z3(size) >= 0, "size-nonnegative", node)
+        f = z3.Function(fresh_name("rints"), z3.IntSort(), z3.IntSort())
+        t = z3.Int(fresh_name("t"))
+        _ext(st, z3.ForAll([t], z3.And(f(t) >= to_z3(lo), f(t) < to_z3(hi))), [f])
+        return st.alloc(Arr((size,), lambda i: f(to_z3(i)), kind="ndarray", etype="int"), "arr")
+    if set(kw) - {"size"}:
+        raise Unsupported(f"Generator.integers with options {sorted(kw)}")
     st.heap[rng.oid]["state"] = _RNG_NEXT(s, z3.IntVal(2))
     v = _RNG_INT(s, to_z3(lo), to_z3(hi), z3.IntVal(0))
     I.safety(st, to_z3(lo) < to_z3(hi), "integers-range-nonempty", node)
@@ -1463,25 +1491,44 @@ def rng_integers(I, st, rng: Obj, args, kw, node):
 
 
 def rng_choice(I, st, rng: Obj, args, kw, node):
-    used("Generator.choice(a, size): every output is an element of a (by index); state advances")
+    used("Generator.choice(a, size[, replace=False]): every output is an element of a (by index; pairwise different "
+         "indices without replacement, which needs size <= len(a)); choice(n, ...) draws from arange(n); state advances")
     s = st.heap[rng.oid]["state"]
     a = _arr(I, st, args[0])
+    if a is None and is_num(args[0]) and not (is_z3(args[0]) and z3.is_real(args[0])):
+        pop = to_z3(args[0])        # choice(n, ...): the population is arange(n)
+        a = Arr((pop,), lambda i: to_z3(i), kind="ndarray", etype="int")
     size = args[1] if len(args) > 1 else kw.get("size")
+    if set(kw) - {"size", "replace"} or len(args) > 2:
+        raise Unsupported(f"Generator.choice with options {sorted(kw)}")
+    repl = kw.get("replace", True)
+    if not isinstance(repl, bool):
+        raise Unsupported("Generator.choice with a symbolic replace flag")
     st.heap[rng.oid]["state"] = _RNG_NEXT(s, z3.IntVal(3))
     if a is None or a.ndim != 1:
         raise Unsupported("choice from non-1d")
     n = to_z3(a.shape[0])
-    I.safety(st, n >= 1, "choice-from-nonempty", node)
     if isinstance(size, VTuple) and len(size.items) == 1:
         size = size.items[0]
+    sa = _arr(I, st, size) if not is_num(size) else None
+    if sa is not None and sa.ndim == 1 and I.concrete_int(sa.shape[0]) == 1:
+        size = sa.elem(0)           # a one-element shape tuple
     if not is_num(size):
         raise Unsupported("choice size")
+    if repl:
+        I.safety(st, zor(to_z3(size) <= 0, n >= 1), "choice-from-nonempty", node)
+    else:
+        I.safety(st, to_z3(size) <= n, "sample-not-larger-than-population", node)
+    I.safety(st, to_z3(size) >= 0, "size-nonnegative", node)
     idxf = z3.Function(fresh_name("choice_idx"), z3.IntSort(), z3.IntSort())
+    t, u = z3.Int(fresh_name("t")), z3.Int(fresh_name("u"))
+    sz = to_z3(size)
+    _ext(st, z3.ForAll([t], z3.Implies(z3.And(t >= 0, t < sz), z3.And(idxf(t) >= 0, idxf(t) < n))), [idxf])
+    if not repl:
+        _ext(st, z3.ForAll([t, u], z3.Implies(z3.And(t >= 0, t < u, u < sz), idxf(t) != idxf(u))), [idxf])
 
-    def elem(t):
-        k = idxf(to_z3(t))
-        st.fact(z3.And(k >= 0, k < n))
-        return a.elem(k)
+    def elem(i):
+        return a.elem(idxf(to_z3(i)))
     return st.alloc(Arr((size,), elem, kind="ndarray", etype=a.etype), "arr")
 
 
